@@ -61,7 +61,7 @@ TSilent(A) == Silent /\ A
 
 TraceNext == \/ Scenario \/ TDocStart \/ TNoMatch \/ TFault \/ TPickLimit \/ TCramPick \/ TRun
              \/ THandle(OnCode) \/ THandle(OnSkip) \/ THandle(OnTimeout) \/ THandle(OnUnknown) \/ THandle(OnDetached)
-             \/ TCramHandle(OnCode) \/ TCramHandle(OnSkip) \/ TCramHandle(OnTimeout) \/ TCramHandle(OnUnknown)
+             \/ TCramHandle(OnScriptExit) \/ TCramHandle(OnCode) \/ TCramHandle(OnSkip) \/ TCramHandle(OnTimeout) \/ TCramHandle(OnUnknown)
              \/ TSilent(ValidateDoc) \/ TSilent(EndDoc) \/ TSilent(Finish)
 TraceSpec == TraceInit /\ [][TraceNext]_tvars
 
